@@ -7,7 +7,7 @@ namespace rs {
 
 // ------------------------------------------------------------------ reference model
 struct ExpOp { int phase, op, plugin; };
-struct ExpFail { Str token, file, testName; size_t line; bool anyLocation; int kind; int diffAt, pair; ExpFail() : line(0), anyLocation(false), kind(0), diffAt(-1), pair(-1) {} };   // kind: 0 check, 1 exception, 2 plugin, 3 ptr overflow, 4 leak
+struct ExpFail { Str token, file, testName; size_t line; bool anyLocation; int kind; int diffAt, pair, bits; ExpFail() : line(0), anyLocation(false), kind(0), diffAt(-1), pair(-1), bits(-1) {} };   // kind: 0 check, 1 exception, 2 plugin, 3 ptr overflow, 4 leak
 struct MSlot { bool live; int family; size_t size; Str file; size_t line; int ownerSeq; };
 struct ExpLeak { size_t size; Str file; size_t line; Str type; };
 struct ModelState {
@@ -84,6 +84,7 @@ static void modelTest(const Desc& d, const Vec<int>& testGroups, const Vec<int>&
             case K_FAIL_CPP: case K_FAIL_C: {
                 x.checks++;
                 ExpFail f; f.token = o.s2; f.file = file; f.line = (size_t)o.d; f.testName = formattedName(T); f.anyLocation = false; f.kind = 0;
+                if (o.kind == K_FAIL_CPP && o.a == 28) f.bits = (int)(o.b % N_BITS_CASES);
                 if (o.kind == K_FAIL_CPP && (o.a == 24 || o.a == 25 || o.a == 27)) { f.diffAt = operandPair(o.b).at; f.pair = (int)(o.b % N_OPERAND_PAIRS); }
                 x.fails.push_back(f); term = true; break;
             }
@@ -198,6 +199,11 @@ static void parseSummaries(const Str& console, Vec<ParsedSummary>& out) {
     }
 }
 
+static Str renderBits(unsigned long v, unsigned long m, int bytes) {
+    Str r;
+    for (int i = bytes * 8 - 1; i >= 0; i--) { r += ((m >> i) & 1) ? (((v >> i) & 1) ? '1' : '0') : 'x'; if (i % 8 == 0 && i != 0) r += ' '; }
+    return r;
+}
 // how a failure message shows a string operand: printable ASCII as it is, the seven control characters with a letter escape by that escape, every other byte as \xHH
 static Str renderOperand(const char* p) {
     Str r;
@@ -481,6 +487,11 @@ void checkOracles(const Desc& d, const Obs& o, RunResult& r) {
                 const char* prop = ef.kind == 4 ? "C07" : "C01";
                 // only text the test itself supplied is demanded back; how the framework words its own failures is not the property's business
                 if (ef.token.compare(0, 2, "tk") == 0 && fr.msg.find(ef.token) == Str::npos) r.fail(prop, "failure_text", sigOf("kind", sfmt("%d", ef.kind)), sfmt("test %d failure %zu: message does not carry '%s': %s", st.test, i, ef.token.c_str(), fr.msg.c_str()));
+                if (ef.bits >= 0) {      // both operands of a bit comparison are shown: every bit of the operand's width, most significant first, x where the mask is 0
+                    const BitsCase& bc = bitsCase(ef.bits);
+                    Str we = Str("<") + renderBits(bc.expected, bc.mask, bc.bytes) + ">", wa = Str("<") + renderBits(bc.actual, bc.mask, bc.bytes) + ">";
+                    if (fr.msg.find(we) == Str::npos || fr.msg.find(wa) == Str::npos) r.fail("C14", "operand_rendering", sfmt("test %d failure %zu: bit operands %s and %s are not both shown: %s", st.test, i, we.c_str(), wa.c_str(), fr.msg.c_str()));
+                }
                 if (ef.pair >= 0) {      // both operands are shown, bytes that are not printable as escapes that denote them
                     Str we = Str("<") + renderOperand(operandPair(ef.pair).expected) + ">", wa = Str("<") + renderOperand(operandPair(ef.pair).actual) + ">";
                     if (fr.msg.find(we) == Str::npos || fr.msg.find(wa) == Str::npos) r.fail("C14", "operand_rendering", sfmt("test %d failure %zu: operands %s and %s are not both shown: %s", st.test, i, we.c_str(), wa.c_str(), fr.msg.c_str()));
